@@ -25,10 +25,11 @@ func TestMain(m *testing.M) { vkit.Main(m, "C13") }
 
 // Case is the replay unit of all three parts.
 type Case struct {
-	Part  string `json:"part"` // "seq" | "conc" | "diff"
-	Ops   []Op   `json:"ops,omitempty"`
-	Pre   []Op   `json:"pre,omitempty"`   // conc: sequential set-up
-	Progs [][]Op `json:"progs,omitempty"` // conc: one program per goroutine
+	Part   string `json:"part"`             // "seq" | "conc" | "diff" | "hashprobe"
+	Family string `json:"family,omitempty"` // conc: program family
+	Ops    []Op   `json:"ops,omitempty"`
+	Pre    []Op   `json:"pre,omitempty"`   // conc: sequential set-up
+	Progs  [][]Op `json:"progs,omitempty"` // conc: one program per goroutine
 }
 
 // store is the part of the storage interfaces the property talks about.
